@@ -217,6 +217,12 @@ func c20Framing(c *core.Ctx, o *c20Obs) {
 			codec.CheckResend(o, c.R.Fork())
 		}
 	}
+	if c.Index%8 == 4 {
+		dr := core.NewRand(core.Mix(c.Seed, "C20-duplex", c.Index))
+		for i := 0; i < 10; i++ {
+			codec.CheckDuplex(o, dr)
+		}
+	}
 	if c.Index%64 == 43 {
 		// (without a size check the sender allocates the claimed size: in
 		// this address-space limited child that is a crash, which counts)
@@ -461,7 +467,7 @@ func init() {
 	core.Register(&core.Prop{
 		ID:    "C20",
 		Level: "exploration",
-		Rule: "Framing cases also sweep exact frame sizes: every encoded size up to 8300 bytes and the neighbourhoods (+-8) of the multiples of 4 KiB up to 128 KiB, as DATA and as STAT packets. cases are dealt round-robin to four families (index mod 8: 0-2 values, 3-4 framing, 5-6 decode, 7 streams), all inputs from the case PRNG. " +
+		Rule: "Plus duplex use of one stream object (10 pairs in every eighth case): a RecvMsg stalled by its reader inside a frame (cut in the header or the body) while a SendMsg of the same object completes, and a SendMsg stalled by its writer in the middle of a Write while a RecvMsg completes; received packets and written frames are compared with what was sent. Framing cases also sweep exact frame sizes: every encoded size up to 8300 bytes and the neighbourhoods (+-8) of the multiples of 4 KiB up to 128 KiB, as DATA and as STAT packets. cases are dealt round-robin to four families (index mod 8: 0-2 values, 3-4 framing, 5-6 decode, 7 streams), all inputs from the case PRNG. " +
 			"values: 120 generated Stat + 120 generated Packet values (empty, extreme and negative ints, unknown enum values, valid and non-UTF-8 names, xattr maps with nil/empty/70 KB values and up to 300 entries, payloads around and above 32 KiB, well-formed unknown fields) and one mutant of each; every value goes vt->vt, vt->generic runtime, generic->vt, through the Marshal/Unmarshal/MarshalTo*/Size/Clone entry points, and is compared with the harness's own field-wise comparator (EqualVT and proto.Equal must agree with it, and must tell a value from its mutant). " +
 			"framing: a sequence of 1-28 packets (protocol-shaped, generated, empty, encodings of exactly 32 KiB-2..+2, payloads up to 300 KiB) is written with SendMsg, the bytes are checked by a reference frame parser and a generic-runtime decoder, then read back with RecvMsg through 5-6 readers (whole, 1-byte, random chunks, fixed chunk, (0,nil) reads, data together with EOF; fresh packets or one packet ResetVT between calls); every slice RecvMsg handed to Read is overwritten with 0xFF after the call and all packets are compared again then and at the end of the stream; then io.EOF; 8 cuts per stream (boundary / inside header / inside body, plain EOF or injected read error). " +
 			"decode: 800 byte strings (random, tag soup, mutated/truncated/spliced valid encodings, huge length varints, nesting to depth 50000, repeated fields, odd map entries, up to 300 KB) into Stat.Unmarshal and Packet.Unmarshal with panic capture and a TotalAlloc delta per call; accepted inputs must re-encode and decode (vt) to the same value. " +
